@@ -1,14 +1,14 @@
-(** Proofs/ChordSymMain.v — assembly of the 16 enumeration shards and the C15 theorems. *)
+(** Proofs/ChordSymMain.v — assembly of the 4 enumeration shards and the C15 theorems. *)
 From Coq Require Import ZArith List Bool.
 From NS Require Import Gen.G15 Model.ChordSym Proofs.ChordSym.
-From NS Require Import Proofs.ChordSymS00 Proofs.ChordSymS01 Proofs.ChordSymS02 Proofs.ChordSymS03 Proofs.ChordSymS04 Proofs.ChordSymS05 Proofs.ChordSymS06 Proofs.ChordSymS07 Proofs.ChordSymS08 Proofs.ChordSymS09 Proofs.ChordSymS10 Proofs.ChordSymS11 Proofs.ChordSymS12 Proofs.ChordSymS13 Proofs.ChordSymS14 Proofs.ChordSymS15.
+From NS Require Import Proofs.ChordSymS0 Proofs.ChordSymS1 Proofs.ChordSymS2 Proofs.ChordSymS3.
 Import ListNotations.
 Local Open Scope Z_scope.
 
 Lemma all_sets_checked : forallb check_set all_sets = true.
 Proof.
   rewrite all_sets_split, forallb_flat_map. cbn [subs map app forallb].
-  rewrite shard_S00_ok, shard_S01_ok, shard_S02_ok, shard_S03_ok, shard_S04_ok, shard_S05_ok, shard_S06_ok, shard_S07_ok, shard_S08_ok, shard_S09_ok, shard_S10_ok, shard_S11_ok, shard_S12_ok, shard_S13_ok, shard_S14_ok, shard_S15_ok.
+  rewrite shard_S0_ok, shard_S1_ok, shard_S2_ok, shard_S3_ok.
   reflexivity.
 Qed.
 
@@ -98,3 +98,38 @@ Proof. split; [vm_compute; discriminate|]. intros x. cbn. tauto. Qed.
 Example ex_add7_is_flat_seventh :
   sym_pitches (mkSym (CH_C, 0) [112; 101; 100] [([97; 100; 100], 7)] None) = Ok [0; 10].
 Proof. vm_compute. reflexivity. Qed.
+
+(** ** The code as found in /repo (before notes/C15-fix-1.diff and C15-fix-2.diff) *)
+Lemma name_pitches_v_fixed : forall pitches, name_pitches_v true true pitches = name_pitches pitches.
+Proof. intros [|p0 tl]; reflexivity. Qed.
+
+(* the round-trip statement for a variant of the namer *)
+Definition roundtrip_holds (name : list Z -> res figure) : Prop :=
+  forall pitches, pitches <> [] ->
+  exists m, In m pitches /\ (forall x, In x pitches -> m <= x) /\ RT (pcs_of pitches) (m mod 12) (name pitches).
+
+Ltac refute_with w :=
+  intros H; destruct (H w ltac:(discriminate)) as [m [Hin [_ HRT]]];
+  vm_compute in HRT; destruct HRT as [ps [Hp [Hb Hx]]]; injection Hp as <-;
+  repeat (destruct Hin as [<-|Hin]; [try discriminate Hb | ]); try contradiction.
+
+(* as found: {C, Db} over Db is named "Dbped(add7)", which denotes {Db, B} *)
+Lemma as_found_refuted : ~ roundtrip_holds (name_pitches_v false false).
+Proof.
+  refute_with [12; 1]. destruct (proj2 (Hx 0) ltac:(cbn; tauto)) as [[?|[?|[]]]|?]; discriminate.
+Qed.
+
+(* only the bass index repaired: same witness *)
+Lemma fix1_only_refuted : ~ roundtrip_holds (name_pitches_v true false).
+Proof.
+  refute_with [12; 1]. destruct (proj2 (Hx 0) ltac:(cbn; tauto)) as [[?|[?|[]]]|?]; discriminate.
+Qed.
+
+(* only the added seventh repaired: D F# A E over D is named "D", the E is lost *)
+Lemma fix2_only_refuted : ~ roundtrip_holds (name_pitches_v false true).
+Proof.
+  refute_with [62; 66; 69; 76]. destruct (proj2 (Hx 4) ltac:(cbn; tauto)) as [[?|[?|[?|[]]]]|?]; discriminate.
+Qed.
+
+Lemma fixed_holds : roundtrip_holds (name_pitches_v true true).
+Proof. intros pitches Hne. rewrite name_pitches_v_fixed. exact (name_roundtrip pitches Hne). Qed.
